@@ -147,6 +147,8 @@ func c06Contexts(e string) []string {
 		"contains(" + e + ", 'a')", "contains('a', " + e + ")", "startsWith(" + e + ", 'a')", "endsWith('a', " + e + ")",
 		"format('{0}', " + e + ")", "format(" + e + ", 'x')", "join(" + e + ", ',')", "join(" + e + ")", "toJSON(" + e + ")", "fromJSON(" + e + ")", "hashFiles(" + e + ")",
 		"github[" + e + "]", "env[" + e + "]", e + "[0]", e + ".*", "(" + e + ").y",
+		// results of && / || are merged types: access after merging with a strict object / an array
+		"(" + e + " || " + root + ".obj).y", "(" + root + ".obj || " + e + ").y", "(" + e + " && " + root + ".obj).z", "(" + root + ".arr || " + e + ")[0]", "(" + e + " || " + root + ".obj).*",
 	}
 }
 
@@ -159,7 +161,7 @@ func TestVerifC06(t *testing.T) {
 	}
 	r.Bounds["type_term_depth"] = depth
 	r.Bounds["accessor_chain_length"] = chainLen
-	r.Extra["rule"] = "accessor chains of length <= 3 over {.y, .z, .*, [0], ['y']} on <root>.x in 26 contexts x roots {matrix, steps, needs, inputs, secrets, jobs} typed {x: T} for every type term T up to the depth bound x every single loosening (sub-term -> any, strict -> open object); oracle: an expression without diagnostics under the original environment has none under the loosened one; end-to-end: 4 literal-vs-dynamic definition pairs x consumer expressions through Linter.Lint. class = message skeleton that disappears or stays; non-trivial = original environment reports something"
+	r.Extra["rule"] = "accessor chains of length <= 3 over {.y, .z, .*, [0], ['y']} on <root>.x in 31 contexts x roots {matrix, steps, needs, inputs, secrets, jobs} typed {x: T} for every type term T up to the depth bound x every single loosening (sub-term -> any, strict -> open object); oracle: an expression without diagnostics under the original environment has none under the loosened one; end-to-end: 4 literal-vs-dynamic definition pairs x consumer expressions, and every include list of 1-3 elements over 4 element forms with one known element made unknown x 8 consumers, through Linter.Lint. class = message skeleton that disappears or stays; non-trivial = original environment reports something"
 	r.Extra["assumptions"] = []string{"environments type one property x of one context at a time", "message identity is compared modulo quoted names and type renderings"}
 
 	if raw := vReplayInput(); raw != nil {
@@ -284,6 +286,47 @@ func TestVerifC06(t *testing.T) {
 			c06E2ECompare(r, src0, mk("        x: ${{ fromJSON(vars.ROW) }}\n"), "matrix-row-dynamic")
 			c06E2ECompare(r, src0, mk("        x: "+lit+"\n        include: ${{ fromJSON(vars.INC) }}\n"), "matrix-include-dynamic")
 			c06E2ECompare(r, src0, strings.Replace(mk(""), "      matrix:\n", "      matrix: ${{ fromJSON(vars.M) }}\n", 1), "matrix-dynamic")
+		}
+	}
+	// include given as a list: every list of 1-3 elements over {two literal mappings, a statically
+	// known object expression, an unknown expression}; loosening = one known element replaced by the
+	// unknown one (the merged matrix type must stay at least as permissive, whatever the order)
+	incElems := []string{"{a: s}", "{b: t}", `${{ fromJSON('{"c":"d"}') }}`, "${{ fromJSON(vars.E) }}"}
+	incCons := []string{"matrix.a", "matrix.b", "matrix.c", "matrix.x", "matrix.nope", "matrix.a.z", "toJSON(matrix)", "matrix.*"}
+	for n := 1; n <= 3; n++ {
+		total := 1
+		for i := 0; i < n; i++ {
+			total *= len(incElems)
+		}
+		for code := 0; code < total; code++ {
+			sel := make([]int, n)
+			for i, c := 0, code; i < n; i++ {
+				sel[i] = c % len(incElems)
+				c /= len(incElems)
+			}
+			mk := func(sel []int, cons string) string {
+				var b strings.Builder
+				b.WriteString("on: push\njobs:\n  a:\n    runs-on: ubuntu-latest\n    strategy:\n      matrix:\n        x: [1]\n        include:\n")
+				for _, e := range sel {
+					b.WriteString("          - " + incElems[e] + "\n")
+				}
+				b.WriteString("    steps:\n      - run: echo ${{ " + cons + " }}\n")
+				return b.String()
+			}
+			for pos := 0; pos < n; pos++ {
+				if sel[pos] == len(incElems)-1 {
+					continue
+				}
+				loose := append([]int{}, sel...)
+				loose[pos] = len(incElems) - 1
+				for _, cons := range incCons {
+					idx++
+					if !r.Mine(idx) {
+						continue
+					}
+					c06E2ECompare(r, mk(sel, cons), mk(loose, cons), "matrix-include-element-dynamic")
+				}
+			}
 		}
 	}
 	// known action / unknown action; declared job outputs / reusable workflow call
